@@ -148,10 +148,13 @@ class BaseDataset(Dataset):
                 sample["image"] = convert_to_grayscale(sample["image"])
 
             # size matcher
+            # config values if set, else `max_hw` (as in `get_data_chunks`)
+            max_height = self.data_config.preprocessing.get("max_height", None)
+            max_width = self.data_config.preprocessing.get("max_width", None)
             sample["image"], eff_scale = apply_sizematcher(
                 sample["image"],
-                max_height=self.max_hw[0],
-                max_width=self.max_hw[1],
+                max_height=max_height if max_height is not None else self.max_hw[0],
+                max_width=max_width if max_width is not None else self.max_hw[1],
             )
             sample["instances"] = sample["instances"] * eff_scale
 
@@ -450,10 +453,13 @@ class CenteredInstanceDataset(BaseDataset):
                 image = convert_to_grayscale(image)
 
             # size matcher
+            # config values if set, else `max_hw` (as in `get_data_chunks`)
+            max_height = self.data_config.preprocessing.get("max_height", None)
+            max_width = self.data_config.preprocessing.get("max_width", None)
             image, eff_scale = apply_sizematcher(
                 image,
-                max_height=self.max_hw[0],
-                max_width=self.max_hw[1],
+                max_height=max_height if max_height is not None else self.max_hw[0],
+                max_width=max_width if max_width is not None else self.max_hw[1],
             )
             instances = instances * eff_scale
 
@@ -681,10 +687,13 @@ class CentroidDataset(BaseDataset):
                 sample["image"] = convert_to_grayscale(sample["image"])
 
             # size matcher
+            # config values if set, else `max_hw` (as in `get_data_chunks`)
+            max_height = self.data_config.preprocessing.get("max_height", None)
+            max_width = self.data_config.preprocessing.get("max_width", None)
             sample["image"], eff_scale = apply_sizematcher(
                 sample["image"],
-                max_height=self.max_hw[0],
-                max_width=self.max_hw[1],
+                max_height=max_height if max_height is not None else self.max_hw[0],
+                max_width=max_width if max_width is not None else self.max_hw[1],
             )
             sample["instances"] = sample["instances"] * eff_scale
 
